@@ -145,6 +145,24 @@ Proof.
   rewrite app_length, enc_dent_length. lia.
 Qed.
 
+Lemma decode_dict_step f l : l <> []%list ->
+  decode_dict (S f) l =
+  match take_fields [8%nat; 4%nat] l with
+  | Some ([id; len], r) =>
+      if N.of_nat (List.length r) <? len then (Err, []%list)
+      else
+        match take (N.to_nat len) r with
+        | Some (name, r') =>
+            if utf8_valid name then
+              let '(x, lg) := decode_dict f r' in
+              (match x with Ok ds => Ok ((id, name) :: ds) | e => e end, (N.to_nat len :: lg)%list)
+            else (Err, [N.to_nat len])
+        | None => (Err, []%list)
+        end
+  | _ => (Err, []%list)
+  end.
+Proof. destruct l; [congruence|reflexivity]. Qed.
+
 Lemma decode_dict_encode ds : forall fuel, forallb wf_dentry ds = true -> (List.length ds <= fuel)%nat ->
   decode_dict fuel (enc_dict ds) = (Ok ds, map (fun d : dentry => List.length (snd d)) ds).
 Proof.
@@ -154,13 +172,9 @@ Proof.
     cbn [forallb] in W. apply andb_prop in W as [Wd Wr].
     unfold wf_dentry in Wd. apply andb_prop in Wd as [Wd Wutf]. apply andb_prop in Wd as [Wd Wb]. apply andb_prop in Wd as [Wid Wlen].
     unfold enc_dict. cbn [flat_map]. fold (enc_dict ds).
-    destruct (enc_dent d ++ enc_dict ds)%list eqn:E.
-    { exfalso. apply (f_equal (@List.length N)) in E. rewrite app_length, enc_dent_length in E. cbn in E. lia. }
-    rewrite <- E. cbn [decode_dict].
+    rewrite decode_dict_step.
+    2:{ intros E. apply (f_equal (@List.length N)) in E. rewrite app_length, enc_dent_length in E. cbn in E. lia. }
     unfold enc_dent at 1. rewrite <- !app_assoc.
-    assert (E2 : exists b l', (encode_fields [8%nat; 4%nat] [fst d; N.of_nat (List.length (snd d))] ++ snd d ++ enc_dict ds)%list = b :: l').
-    { cbn [encode_fields le]. eexists. eexists. reflexivity. }
-    destruct E2 as [b0 [l0 E2]]. rewrite E2. rewrite <- E2.
     rewrite take_fields_encode.
     2:{ cbn [wf_fields]. change (8 * N.of_nat 8) with 64. change (8 * N.of_nat 4) with 32.
         unfold u64b in Wid. unfold u32b in Wlen. rewrite Wid, Wlen. reflexivity. }
@@ -204,3 +218,196 @@ Proof.
       by (symmetry; apply N.leb_le; rewrite !app_length; lia).
     subst off len. rewrite !Nat2N.id. rewrite skipn_app_exact by reflexivity. rewrite firstn_app_exact by reflexivity. reflexivity.
 Qed.
+
+Lemma load_features_ok (pre post : bytes) fs off :
+  N.of_nat (List.length pre) = off -> off <> 0 -> N.of_nat (List.length fs) < 2 ^ 32 -> forallb u64b fs = true ->
+  load_features (pre ++ enc_features fs ++ post) off = Some fs.
+Proof.
+  intros Ho Hz Hc Hf. unfold load_features.
+  replace (off =? 0) with false by (symmetry; apply N.eqb_neq; exact Hz). cbn [orb].
+  assert (LF := enc_features_length fs).
+  replace (off + 4 <=? N.of_nat (List.length (pre ++ enc_features fs ++ post))) with true
+    by (symmetry; apply N.leb_le; rewrite !app_length, LF; lia).
+  cbn [negb]. subst off. rewrite Nat2N.id, skipn_app_exact by reflexivity.
+  unfold enc_features at 1. rewrite <- app_assoc, take_app by apply le_length.
+  rewrite unle_le by (change (8 * N.of_nat 4) with 32; exact Hc).
+  replace (N.of_nat (List.length pre) + 4 + 8 * N.of_nat (List.length fs) <=? N.of_nat (List.length (pre ++ enc_features fs ++ post))) with true
+    by (symmetry; apply N.leb_le; rewrite !app_length, LF; lia).
+  rewrite Nat2N.id. apply take_u64s_encode. exact Hf.
+Qed.
+
+Lemma load_types_ok (pre post : bytes) ts off :
+  N.of_nat (List.length pre) = off -> off <> 0 -> N.of_nat (List.length ts) < 2 ^ 32 -> forallb wf_tentry ts = true ->
+  load_types (pre ++ enc_types ts ++ post) off = (Ok ts, map (fun t : tentry => List.length (snd t)) ts).
+Proof.
+  intros Ho Hz Hc Hf. unfold load_types.
+  replace (off =? 0) with false by (symmetry; apply N.eqb_neq; exact Hz). cbn [orb].
+  assert (LT : (4 <= List.length (enc_types ts))%nat) by (unfold enc_types; rewrite app_length, le_length; lia).
+  replace (off + 4 <=? N.of_nat (List.length (pre ++ enc_types ts ++ post))) with true
+    by (symmetry; apply N.leb_le; rewrite !app_length; lia).
+  cbn [negb]. subst off. rewrite Nat2N.id, skipn_app_exact by reflexivity.
+  unfold enc_types at 1. rewrite <- app_assoc, take_app by apply le_length.
+  rewrite unle_le by (change (8 * N.of_nat 4) with 32; exact Hc).
+  apply decode_types_encode; [exact Hf|]. rewrite app_length. pose proof (enc_types_ge ts). lia.
+Qed.
+
+Lemma N_list_eqb_eq a : forall b, N_list_eqb a b = true -> a = b.
+Proof.
+  induction a as [|x a IH]; intros [|y b] H; cbn [N_list_eqb] in H; try discriminate; [reflexivity|].
+  apply andb_prop in H as [H1 H2]. apply N.eqb_eq in H1. subst. f_equal. apply IH. exact H2.
+Qed.
+
+Lemma relayout_wf p : wf_program p = true -> relayout p = p.
+Proof.
+  intros W. unfold wf_program in W. repeat (apply andb_prop in W as [W _]).
+  apply N_list_eqb_eq in W. destruct p as [h fs ts cs bl ss is ds]. unfold relayout. cbn [p_header p_features p_types p_consts p_blob p_symbols p_instrs p_dict] in *.
+  rewrite <- W. reflexivity.
+Qed.
+
+Lemma wf_fields_nth ws : forall vs k w, wf_fields ws vs = true -> nth_error ws k = Some w ->
+  nth k vs 0 < 2 ^ (8 * N.of_nat w).
+Proof.
+  induction ws as [|w0 ws IH]; intros [|v vs] k w H E; cbn [wf_fields] in H; try discriminate.
+  - destruct k; discriminate.
+  - apply andb_prop in H as [Hv Hr]. destruct k as [|k]; cbn [nth_error nth] in *.
+    + inversion E; subst. apply N.ltb_lt. exact Hv.
+    + apply IH; assumption.
+Qed.
+
+Lemma HEADER_SIZE_val : HEADER_SIZE = 129%nat. Proof. reflexivity. Qed.
+
+Lemma decode_syms_encode0 ss : forallb wf_sym ss = true -> decode_syms (List.length ss) (enc_syms ss) = Some ss.
+Proof. intros H. rewrite <- (app_nil_r (enc_syms ss)). apply decode_syms_encode. exact H. Qed.
+
+Lemma decode_const_entries_encode0 cs : forallb (wf_fields const_entry_widths) cs = true ->
+  decode_const_entries (List.length cs) (enc_consts cs) = Some cs.
+Proof. intros H. rewrite <- (app_nil_r (enc_consts cs)). apply decode_const_entries_encode. exact H. Qed.
+
+Theorem load_payload_encode p : wf_program p = true ->
+  fst (load_payload (encode_header (p_header p) ++ body p)) = Ok p.
+Proof.
+  intros W. destruct p as [h fs ts cs bl ss is ds]. unfold wf_program in W.
+  cbn [p_header p_features p_types p_consts p_blob p_symbols p_instrs p_dict] in W.
+  apply andb_prop in W as [W Wd]. apply andb_prop in W as [W Wnr]. apply andb_prop in W as [W Wi].
+  apply andb_prop in W as [W Ws]. apply andb_prop in W as [W Wb]. apply andb_prop in W as [W Wc].
+  apply andb_prop in W as [W Wt]. apply andb_prop in W as [W Wf]. apply andb_prop in W as [Eh Wh].
+  apply N_list_eqb_eq in Eh.
+  remember (hfield h 1) as v1. remember (hfield h 2) as v2. remember (hfield h 3) as v3. remember (hfield h 4) as v4.
+  remember (hfield h 21) as v21. clear Heqv1 Heqv2 Heqv3 Heqv4 Heqv21.
+  unfold body. cbn [p_header p_features p_types p_consts p_blob p_symbols p_instrs p_dict].
+  set (P := {| p_header := h; p_features := fs; p_types := ts; p_consts := cs; p_blob := bl; p_symbols := ss; p_instrs := is; p_dict := ds |}) in *.
+  (* lengths of the encoded sections *)
+  assert (LH : List.length (encode_header h) = HEADER_SIZE) by (apply encode_fields_length; exact Wh).
+  assert (LF : N.of_nat (List.length (enc_features fs)) = feat_len P) by (rewrite enc_features_length; unfold feat_len, P; cbn [p_features]; lia).
+  assert (LT : N.of_nat (List.length (enc_types ts)) = types_len P).
+  { unfold enc_types. rewrite app_length, le_length, Nat2N.inj_add, enc_types_body_length. reflexivity. }
+  assert (LC : N.of_nat (List.length (enc_consts cs)) = tbl_len P) by (rewrite enc_consts_length by exact Wc; unfold tbl_len, P; cbn [p_consts]; lia).
+  assert (LS : N.of_nat (List.length (enc_syms ss)) = syms_len P) by (rewrite enc_syms_length; unfold syms_len, P; cbn [p_symbols]; lia).
+  assert (LI : N.of_nat (List.length (encode_instrs is)) = instrs_len P) by apply encode_instrs_length.
+  assert (LD : N.of_nat (List.length (enc_dict ds)) = dict_len P) by apply enc_dict_length.
+  assert (LB : N.of_nat (List.length bl) = blob_len P) by reflexivity.
+  (* header fields *)
+  assert (Hmagic : h_magic h = MAGIC) by (rewrite Eh; reflexivity).
+  assert (Hfoff : h_feature_off h = N.of_nat HEADER_SIZE) by (rewrite Eh; reflexivity).
+  assert (Htoff : h_types_off h = N.of_nat HEADER_SIZE + feat_len P) by (rewrite Eh; reflexivity).
+  assert (Hccount : h_const_count h = N.of_nat (List.length cs)) by (rewrite Eh; reflexivity).
+  assert (Htbloff : h_const_tbl_off h = N.of_nat HEADER_SIZE + feat_len P + types_len P) by (rewrite Eh; reflexivity).
+  assert (Htbllen : h_const_tbl_len h = tbl_len P) by (rewrite Eh; reflexivity).
+  assert (Hbloff : h_const_blob_off h = N.of_nat HEADER_SIZE + feat_len P + types_len P + tbl_len P) by (rewrite Eh; reflexivity).
+  assert (Hbllen : h_const_blob_len h = blob_len P) by (rewrite Eh; reflexivity).
+  assert (Hsoff : h_symbols_off h = N.of_nat HEADER_SIZE + feat_len P + types_len P + tbl_len P + blob_len P) by (rewrite Eh; reflexivity).
+  assert (Hslen : h_symbols_len h = syms_len P) by (rewrite Eh; reflexivity).
+  assert (Hioff : h_instr_off h = N.of_nat HEADER_SIZE + feat_len P + types_len P + tbl_len P + blob_len P + syms_len P) by (rewrite Eh; reflexivity).
+  assert (Hilen : h_instr_len h = instrs_len P) by (rewrite Eh; reflexivity).
+  assert (Hdoff : h_dict_off h = N.of_nat HEADER_SIZE + feat_len P + types_len P + tbl_len P + blob_len P + syms_len P + instrs_len P) by (rewrite Eh; reflexivity).
+  assert (Hdlen : h_dict_len h = dict_len P) by (rewrite Eh; reflexivity).
+  assert (Hfc : N.of_nat (List.length fs) < 2 ^ 32).
+  { assert (X : hfield h 6 = N.of_nat (List.length fs)) by (rewrite Eh; reflexivity).
+    rewrite <- X. apply (wf_fields_nth header_widths h 6 4%nat Wh). reflexivity. }
+  assert (Htc : N.of_nat (List.length ts) < 2 ^ 32).
+  { assert (X : hfield h 8 = N.of_nat (List.length ts)) by (rewrite Eh; reflexivity).
+    rewrite <- X. apply (wf_fields_nth header_widths h 8 4%nat Wh). reflexivity. }
+  clear Eh.
+  assert (HSpos : N.of_nat HEADER_SIZE <> 0) by (rewrite HEADER_SIZE_val; discriminate).
+  set (payload := (encode_header h ++ enc_features fs ++ enc_types ts ++ enc_consts cs ++ bl ++ enc_syms ss ++ encode_instrs is ++ enc_dict ds)%list).
+  assert (F1 : load_features payload (h_feature_off h) = Some fs).
+  { rewrite Hfoff. unfold payload. apply load_features_ok; [rewrite LH; reflexivity|exact HSpos|exact Hfc|exact Wf]. }
+  assert (F2 : load_types payload (h_types_off h) = (Ok ts, map (fun t : tentry => List.length (snd t)) ts)).
+  { rewrite Htoff. unfold payload. rewrite (app_assoc (encode_header h)).
+    apply load_types_ok; [rewrite app_length, Nat2N.inj_add, LH, LF; reflexivity | lia | exact Htc | exact Wt]. }
+  assert (F3 : sect payload (h_const_tbl_off h) (h_const_tbl_len h) = Some (enc_consts cs)).
+  { rewrite Htbloff, Htbllen. unfold payload.
+    replace (encode_header h ++ enc_features fs ++ enc_types ts ++ enc_consts cs ++ bl ++ enc_syms ss ++ encode_instrs is ++ enc_dict ds)%list
+      with ((encode_header h ++ enc_features fs ++ enc_types ts) ++ enc_consts cs ++ (bl ++ enc_syms ss ++ encode_instrs is ++ enc_dict ds))%list
+      by (rewrite <- !app_assoc; reflexivity).
+    apply sect_app; [rewrite !app_length, !Nat2N.inj_add, LH, LF, LT; lia | exact LC | lia]. }
+  assert (F4 : sect payload (h_const_blob_off h) (h_const_blob_len h) = Some bl).
+  { rewrite Hbloff, Hbllen. unfold payload.
+    replace (encode_header h ++ enc_features fs ++ enc_types ts ++ enc_consts cs ++ bl ++ enc_syms ss ++ encode_instrs is ++ enc_dict ds)%list
+      with ((encode_header h ++ enc_features fs ++ enc_types ts ++ enc_consts cs) ++ bl ++ (enc_syms ss ++ encode_instrs is ++ enc_dict ds))%list
+      by (rewrite <- !app_assoc; reflexivity).
+    apply sect_app; [rewrite !app_length, !Nat2N.inj_add, LH, LF, LT, LC; lia | exact LB | lia]. }
+  assert (F5 : sect payload (h_symbols_off h) (h_symbols_len h) = Some (enc_syms ss)).
+  { rewrite Hsoff, Hslen. unfold payload.
+    replace (encode_header h ++ enc_features fs ++ enc_types ts ++ enc_consts cs ++ bl ++ enc_syms ss ++ encode_instrs is ++ enc_dict ds)%list
+      with ((encode_header h ++ enc_features fs ++ enc_types ts ++ enc_consts cs ++ bl) ++ enc_syms ss ++ (encode_instrs is ++ enc_dict ds))%list
+      by (rewrite <- !app_assoc; reflexivity).
+    apply sect_app; [rewrite !app_length, !Nat2N.inj_add, LH, LF, LT, LC, LB; lia | exact LS | lia]. }
+  assert (F6 : sect payload (h_instr_off h) (h_instr_len h) = Some (encode_instrs is)).
+  { rewrite Hioff, Hilen. unfold payload.
+    replace (encode_header h ++ enc_features fs ++ enc_types ts ++ enc_consts cs ++ bl ++ enc_syms ss ++ encode_instrs is ++ enc_dict ds)%list
+      with ((encode_header h ++ enc_features fs ++ enc_types ts ++ enc_consts cs ++ bl ++ enc_syms ss) ++ encode_instrs is ++ (enc_dict ds))%list
+      by (rewrite <- !app_assoc; reflexivity).
+    apply sect_app; [rewrite !app_length, !Nat2N.inj_add, LH, LF, LT, LC, LB, LS; lia | exact LI | lia]. }
+  assert (F7 : sect payload (h_dict_off h) (h_dict_len h) = Some (enc_dict ds)).
+  { rewrite Hdoff, Hdlen. unfold payload.
+    replace (encode_header h ++ enc_features fs ++ enc_types ts ++ enc_consts cs ++ bl ++ enc_syms ss ++ encode_instrs is ++ enc_dict ds)%list
+      with ((encode_header h ++ enc_features fs ++ enc_types ts ++ enc_consts cs ++ bl ++ enc_syms ss ++ encode_instrs is) ++ enc_dict ds ++ [])%list
+      by (rewrite <- !app_assoc, app_nil_r; reflexivity).
+    apply sect_app; [rewrite !app_length, !Nat2N.inj_add, LH, LF, LT, LC, LB, LS, LI; lia | exact LD | lia]. }
+  assert (DH : decode_header payload = Some h) by (apply header_roundtrip; exact Wh).
+  assert (G1 : (h_const_tbl_len h <? 24 * h_const_count h) = false).
+  { rewrite Htbllen, Hccount. unfold tbl_len, P. cbn [p_consts]. apply N.ltb_irrefl. }
+  assert (G2 : (if (h_const_tbl_off h =? 0) || (h_const_tbl_len h =? 0) then Some []%list
+                else decode_const_entries (N.to_nat (h_const_count h)) (enc_consts cs)) = Some cs).
+  { rewrite Hccount, Nat2N.id. destruct ((h_const_tbl_off h =? 0) || (h_const_tbl_len h =? 0)) eqn:E.
+    - apply orb_prop in E as [E|E]; apply N.eqb_eq in E.
+      + rewrite Htbloff in E. lia.
+      + rewrite Htbllen in E. unfold tbl_len, P in E. cbn [p_consts] in E. destruct cs; [reflexivity|cbn [List.length] in E; lia].
+    - apply decode_const_entries_encode0. exact Wc. }
+  assert (G3 : decode_syms (List.length (enc_syms ss) / 13) (enc_syms ss) = Some ss).
+  { rewrite enc_syms_length, Nat.mul_comm, Nat.div_mul by discriminate. apply decode_syms_encode0. exact Ws. }
+  assert (G4 : decode_dict (S (List.length (enc_dict ds))) (enc_dict ds) = (Ok ds, map (fun d : dentry => List.length (snd d)) ds)).
+  { apply decode_dict_encode; [exact Wd|]. pose proof (enc_dict_ge ds). lia. }
+  assert (G5 : decode_instrs (S (List.length (encode_instrs is))) (encode_instrs is) = Ok is).
+  { apply decode_encode_instrs.
+    - apply forallb_Forall. exact Wi.
+    - apply forallb_Forall in Wnr. eapply Forall_impl; [|exact Wnr]. intros i Hi. cbv beta in Hi. apply negb_true_iff in Hi. exact Hi.
+    - pose proof (encode_instrs_ge is). lia. }
+  unfold load_payload. fold payload.
+  replace (Nat.ltb (List.length payload) HEADER_SIZE) with false
+    by (symmetry; apply Nat.ltb_ge; unfold payload; rewrite app_length, LH; lia).
+  rewrite DH, Hmagic, N.eqb_refl. cbn [negb].
+  rewrite F1, F2, F3, G1, andb_false_r, G2, F4, F5, G3, F6, F7, G4, G5.
+  reflexivity.
+Qed.
+
+Theorem codec_roundtrip p : wf_program p = true -> fst (load_program (encode_program p)) = Ok p.
+Proof.
+  intros W. unfold encode_program. rewrite (relayout_wf p W). unfold to_bytes, load_program.
+  rewrite verify_emitted. cbn [negb].
+  rewrite app_length, trailer_length, Nat.add_sub, firstn_app_exact by reflexivity.
+  apply load_payload_encode. exact W.
+Qed.
+
+(* a file is canonical when it is what the encoder writes for some well-formed program *)
+Definition canonical (bs : bytes) : Prop := exists q, wf_program q = true /\ bs = encode_program q.
+
+Theorem reencode bs p : fst (load_program bs) = Ok p -> canonical bs -> encode_program p = bs.
+Proof.
+  intros L [q [W E]]. subst bs. rewrite (codec_roundtrip q W) in L. inversion L. reflexivity.
+Qed.
+
+(* ParsedProgram::to_bytes and CompileCtx::compile agree on well-formed programs *)
+Theorem to_bytes_encode_program p : wf_program p = true -> to_bytes p = encode_program p.
+Proof. intros W. unfold encode_program. rewrite (relayout_wf p W). reflexivity. Qed.
